@@ -18,6 +18,8 @@ EXPLANATION = (
     "I6: every registered role has a branch, and roles are not recovered from fields that carry user "
     "identifiers. From I1-I5: ids are 0..n-1 without gaps or repeats, each call site's id has exactly one case "
     "which calls the routine generated from the same entry. That the routine's *body* is right is C06/C11.")
+EXPLANATION += (
+    ' I1 (as built): the counter and the dispatch map are written by the allocator only, apart from joint unconditional resets (counter := 0 together with map := {}), one of which the constructor performs. I6 additionally requires the accessor prefix tested by generate_collector_function to be spelt from the same tuple slots as the routine name registered by wrap_class_properties.')
 ASSUMPTIONS = [
     "the abstract execution models exactly the statement forms the two loops use (assign, if, continue, "
     "+= of formatted text, map.get); anything else is an ANALYSIS-ERROR",
